@@ -12,6 +12,7 @@
     otherwise).
 -/
 import JRV.Model.Json
+import JRV.Model.Backend
 
 namespace JRV
 
@@ -46,15 +47,18 @@ def resolveVersion (cfg : Config) : VerArg → Nat
   | .num t => if t == 0 then cfg.version else t
   | .str t => t
 
+/-- `if self.id is None or self.id == "": self.id = str(uuid.uuid4())`. -/
+def chooseId (rpcid : PyVal) (fresh : String) : PyVal :=
+  match rpcid with
+  | .none => .str fresh
+  | .str s => if s == "" then .str fresh else .str s
+  | v => v
+
 /-- `Payload.request(method, params)`; `rpcid` is `self.id`, `fresh` the id `uuid4` would give. -/
 def request (ver : Nat) (rpcid : PyVal) (fresh : String) (method : PyVal) (params : PyVal) : PyM PyVal :=
   if !method.isStr then raise "ValueError" (.str "Method name must be a string.")
   else
-    -- `if self.id is None or self.id == ""`
-    let id := match rpcid with
-      | .none => PyVal.str fresh
-      | .str "" => PyVal.str fresh
-      | v => v
+    let id := chooseId rpcid fresh
     let base : List (PyVal × PyVal) := [(.str "id", id), (.str "method", method)]
     -- `if params or self.version < 1.1: request["params"] = params or []`
     let withParams :=
@@ -79,11 +83,16 @@ def response (ver : Nat) (rpcid : PyVal) (result : PyVal) : PyVal :=
   if ver ≥ 20 then .dict (base ++ [(.str "jsonrpc", .str (verStr ver))])
   else .dict (base ++ [(.str "error", .none)])
 
+/-- `if data is not None: error["error"]["data"] = data`. -/
+def dataEntry (data : PyVal) : List (PyVal × PyVal) :=
+  match data with
+  | .none => []
+  | d => [(.str "data", d)]
+
 /-- `Payload.error(code, message, data)`. -/
 def error (ver : Nat) (rpcid : PyVal) (code message data : PyVal) : PyVal :=
   let errObj : List (PyVal × PyVal) :=
-    [(.str "code", code), (.str "message", message)] ++
-      (match data with | .none => [] | d => [(.str "data", d)])
+    [(.str "code", code), (.str "message", message)] ++ dataEntry data
   match response ver rpcid .none with
   | .dict kvs =>
     let kvs' := if ver ≥ 20 then delStr "result" kvs else setStr "result" .none kvs
@@ -138,6 +147,31 @@ deriving Repr
     version=self.config.version, config=self.config)`. -/
 def faultDump (cfg : Config) (f : Fault) : PyVal :=
   error cfg.version f.rpcid f.code f.message f.data
+
+/-- `Fault.response()`: the same dictionary rendered by the JSON backend. -/
+def faultResponse (B : Backend) (cfg : Config) (f : Fault) : PyM String :=
+  B.render (faultDump cfg f)
+
+/-- `jsonrpclib.dumps(...)`: `dump` then `jdumps`. -/
+def dumps (B : Backend) (cfg : Config) (conv : PyVal → PyM PyVal) (fresh : String)
+    (params : Params) (methodname : PyVal) (rpcid : PyVal) (version : VerArg)
+    (isResponse isNotify : Bool) : PyM String := do
+  let d ← dump cfg conv fresh params methodname rpcid version isResponse isNotify
+  B.render d
+
+/-- `jsonrpclib.load(data, config)`; `unconv` stands for `jsonclass.load(data, config.classes)`. -/
+def load (cfg : Config) (unconv : PyVal → PyM PyVal) (data : PyVal) : PyM PyVal :=
+  match data with
+  | .none => pure .none
+  | d => if cfg.useJsonclass then unconv d else pure d
+
+/-- `jsonrpclib.loads(text, config)`: `""` is a notification reply (`None`), a text the backend
+    rejects raises (ValueError for the standard backend). -/
+def loads (B : Backend) (cfg : Config) (unconv : PyVal → PyM PyVal) (text : String) : PyM PyVal :=
+  if text == "" then pure .none
+  else match B.parse text with
+    | some v => load cfg unconv v
+    | Option.none => raise "ValueError" (.str "JSON decoding error")
 
 end Payload
 end JRV
